@@ -413,7 +413,7 @@ func checkSave1(res *kit.Result, doc *document.Document, model []interface{}, wh
 func TestC08(t *testing.T) {
 	kit.Main(t, kit.Spec[Case]{
 		ID: "C08", Level: "exploration",
-		Rule: "history of 1-40 (thorough 1-80) body-editing calls on a new document or (1 in 3) on a document OPENED from a package written by the harness with string templates (1-7 body children: paragraphs, paragraphs that end a section (w:sectPr inside w:pPr), tables, body-level bookmarks, content controls; body-level w:sectPr in four forms or absent): every append constructor (text-taking ones with the drawn text plus a per-call marker, the drawn text as it is, or the empty string; AddListItem also with a nil config; Body.AddElement with a paragraph, a table or a section element), removals by handle (live, already removed, foreign, nil) / paragraph index / element index with selectors covering -1, every valid index, n, n+1, and page-setting/header/footer calls that create section settings at arbitrary points, among them calls with arguments the API rejects (SetPageSettings with nil / custom sizes at and beyond the limits / unknown orientation, SetCustomPageSize and the distance setters with values at and beyond the limits, SetPageOrientation with unknown values, SetDocGrid without a type, AddTable without rows/columns, cell edits outside the table, AutoGenerateTOC/UpdateTOC without headings/TOC); reference model = slice of element identities compared pointer-for-pointer after every call, a content fingerprint of every element already there compared across every append, removal, page/header call and every REJECTED call (error returned => list and contents as before), plus the child order of w:body at drawn saves, at the end, right after opening, after every call while the list holds more than one section element, and (1 case in 8) after every call. one history in three edits two or three documents of the process ALTERNATELY (each call names its document; documents 1 and 2 are created - document.New(), or opened from the same package as document 0 - when the first call addresses them, i.e. while the others already have content), each with its own model; after every call every other live document (also the never-edited one that supplies foreign handles) must hold the same elements with the same contents; handle removals also get a paragraph of another live document of the history and a COPY of a live paragraph (equal content, other object); one history in twelve repeats appends/removals 2-70 times (bodies past 16/32/64 elements; index selectors reach every index, n and n+1 of such bodies) and one opened start in twelve has 8-67 children; saving must leave the list as it is. non-trivial = in one document >=1 successful removal after >=4 appends of >=3 kinds with section settings present before the last append; distinct = distinct sequence of (op kind, outcome group) and start document",
+		Rule: "history of 1-40 (thorough 1-80) body-editing calls on a new document or (1 in 3) on a document OPENED from a package written by the harness with string templates (1-7 body children: paragraphs, paragraphs that end a section (w:sectPr inside w:pPr), tables, body-level bookmarks, content controls; body-level w:sectPr in four forms or absent): every append constructor (text-taking ones with the drawn text plus a per-call marker, the drawn text as it is, or the empty string; AddListItem also with a nil config; Body.AddElement with a paragraph, a table or a section element), removals by handle (live, already removed, foreign, nil) / paragraph index / element index with selectors covering -1, every valid index, n, n+1, and page-setting/header/footer calls that create section settings at arbitrary points, among them calls with arguments the API rejects (SetPageSettings with nil / custom sizes at and beyond the limits / unknown orientation, SetCustomPageSize and the distance setters with values at and beyond the limits, SetPageOrientation with unknown values, SetDocGrid without a type, AddTable without rows/columns, cell edits outside the table, AutoGenerateTOC/UpdateTOC without headings/TOC); reference model = slice of element identities compared pointer-for-pointer after every call, a content fingerprint of every element already there compared across every append, removal, page/header call and every REJECTED call (error returned => list and contents as before), the list of an opened start held to the children of w:body as written (same elements in the same order, body-level section settings last), plus the child order of w:body at drawn saves, at the end, right after opening, after every call while the list holds more than one section element, and (1 case in 8) after every call. one history in three edits two or three documents of the process ALTERNATELY (each call names its document; documents 1 and 2 are created - document.New(), or opened from the same package as document 0 - when the first call addresses them, i.e. while the others already have content), each with its own model; after every call every other live document (also the never-edited one that supplies foreign handles) must hold the same elements with the same contents; handle removals also get a paragraph of another live document of the history and a COPY of a live paragraph (equal content, other object); one history in twelve repeats appends/removals 2-70 times (bodies past 16/32/64 elements; index selectors reach every index, n and n+1 of such bodies) and one opened start in twelve has 8-67 children; saving must leave the list as it is. non-trivial = in one document >=1 successful removal after >=4 appends of >=3 kinds with section settings present before the last append; distinct = distinct sequence of (op kind, outcome group) and start document",
 		Gen:  genCase, Run: run, Findings: findings, Fixed: fixedCases,
 		MustSee: map[string]float64{"rm-out-of-range": 0.3, "rmhandle:removed": 0.1, "rmhandle:foreign": 0.1, "sectPr-in-the-middle": 0.2, "multi-element-append": 0.2, "failed-removal": 0.3,
 			"empty-text-append": 0.3, "empty-text-append-after-paragraph": 0.2, "empty-text-note": 0.05, "raw-text-append": 0.3,
@@ -421,13 +421,13 @@ func TestC08(t *testing.T) {
 			"several-sectPr-in-model": 0.1, "saved-with-sectPr-last-and-another-earlier": 0.08, "saved-after-every-call": 0.03, "addelem-sectPr": 0.1,
 			"several-documents": 0.2, "documents-edited-alternately": 0.15, "document-created-while-another-has-content": 0.1, "peer-opened-from-the-same-package": 0.02,
 			"rmhandle:peer": 0.05, "rmhandle:copy-of-one-of-several": 0.04, "repeated-call": 0.04, "body-over-16-elements": 0.1, "body-over-32-elements": 0.03, "body-over-64-elements": 0.015,
-			"opened-with-over-16-elements": 0.008},
+			"opened-with-over-16-elements": 0.008, "opened-with-body-level-sectPr": 0.1, "opened-section-break-and-body-level-sectPr": 0.06},
 		Assumptions: []string{"documents of one process are independent bodies: a call on one document is neither an append to nor a removal from another live document and does not disturb the elements already there (the statement's clauses read per body; no element object is ever handed to two documents by the generator)",
 			"a copy of a paragraph object (same content, different pointer) is a paragraph that does not exist in the body (RemoveParagraph is documented to remove 'the given paragraph object'): removing it must fail",
 			"AutoGenerateTOC (prepends by design) and UpdateTOC are not append operations and are judged under C15; here they are only held to the clause for rejected calls (error => body unchanged), after a successful one the model is re-read from the document",
 			"3 of 5 text-taking appends carry a per-op marker so that the saved children can be matched to model elements, the others pass the drawn text unchanged or the empty string; text is drawn from XML-expressible classes",
 			"GenerateTOC is not among the constructors the statement lists: the content-fingerprint clause does not apply to it (the list clauses do)",
 			"L5 (a call that returns an error leaves the element list and every element's content as they were) generalises the statement's 'reports failure without changing anything' from removals to every rejecting call: a rejected call is neither an append nor a removal",
-			"for a history that starts from an opened document the model starts as the element list OpenFromMemory delivered (what the reader makes of the package is C09's subject); when that list holds two section elements (a section break inside a paragraph plus the body-level one) the statement does not say which one is kept: L4 demands only what it states - every other element once and in order, exactly one body-level w:sectPr, last"},
+			"for a history that starts from an opened document the model starts as the element list OpenFromMemory delivered, and L6 holds that list to the package it was read from: element and paragraph indices of an opened body designate the children of w:body in document order, so the list's elements other than section settings are those children one for one and in order (kind, text, row count, bookmark name; read with the harness's own XML reader) and the body-level w:sectPr - always the last child - is the last element. Whether a section break inside a paragraph (not a child of w:body) gets an element of its own, and where, is not demanded; when the list holds two section elements (a section break inside a paragraph plus the body-level one) the statement does not say which one is kept: L4 demands only what it states - every other element once and in order, exactly one body-level w:sectPr, last"},
 	})
 }
